@@ -553,8 +553,14 @@ def run_case(case, acc=None):
             if oks != {rm.sender_ok(s_)}:
                 fails.append((["filters", "senders"], f"sender {hex(s_)}: halmos admits {sorted(map(str, oks))}, model {rm.sender_ok(s_)}; filters={case['filters']}"))
                 break
-    # (a) completeness
+    # (a) completeness (not applied when halmos flagged a stuck target call: exploration was cut there
+    #     and said so; whether such flags appear is C10's business)
+    flagged = [m_ for lvl, m_ in r.logs.records if lvl == "ERROR" and m_.startswith("depth=")]
+    if flagged and acc is not None:
+        acc.count("flagged-incomplete")
     for i, seq in breaks.items():
+        if flagged:
+            break
         if v[i] != 1:
             fails.append((["missed-break", f"depth:{case['depth']}", f"len:{len(seq)}"], f"invariant_i{i} {case['invariants'][i]} is broken by {seq} but halmos reports exit code {v[i]}"))
     # (b) validity of reported counterexamples; (c) probes
@@ -640,15 +646,16 @@ def effect_st(nslots):
 
 
 def fn_st(nslots):
-    def mk(arg, payable, guards, effects, has_assert, ag):
+    def mk(arg, payable, guards, effects, has_assert, ag, noop):
         effects = [e for e in effects if not (e[0] == "setarg" and not arg)]
         guards = [g for g in guards if not (g[0] == "value" and not payable)]
-        f = {"arg": arg, "payable": payable, "guards": guards, "effects": effects or [["add", 0, 1]]}
+        # (a function without any effect is a legitimate target: it only lets time pass)
+        f = {"arg": arg, "payable": payable, "guards": guards, "effects": [] if noop else (effects or [["add", 0, 1]])}
         if has_assert:
             f["assert"] = ag if not (ag[0] == "value" and not payable) else ["slot", 0, "eq", 3]
         return f
 
-    return st.booleans().flatmap(lambda arg: st.builds(mk, st.just(arg), st.sampled_from([False, False, True]), st.lists(guard_st(nslots, arg), max_size=2), st.lists(effect_st(nslots), min_size=1, max_size=2), st.sampled_from([False] * 7 + [True]), guard_st(nslots, arg)))
+    return st.booleans().flatmap(lambda arg: st.builds(mk, st.just(arg), st.sampled_from([False, False, True]), st.lists(guard_st(nslots, arg), max_size=2), st.lists(effect_st(nslots), min_size=1, max_size=2), st.sampled_from([False] * 7 + [True]), guard_st(nslots, arg), st.sampled_from([False] * 9 + [True])))
 
 
 def filters_st(names, nf, bump):
